@@ -1216,6 +1216,7 @@ fn execute_match(cx: &Ctx, ask_id: &str, bid_id: &str, price: &str, size: u128) 
         return refuse("ask_fee_unpayable");
     }
     // bid fee alternatives: (bf, of) with of >= bf
+    let mut must_accept = true;
     let mut fee_alts: Vec<(u128, u128)> = vec![];
     if bid.fee.is_some() {
         let uf = match held_fee_by_definition(bid) {
@@ -1255,10 +1256,16 @@ fn execute_match(cx: &Ctx, ask_id: &str, bid_id: &str, price: &str, size: u128) 
         }
         if cfg.bid_fee.is_none() {
             // the fill's fee is owed to the bid-fee account, and there is none: only fee-free
-            // alternatives can be settled as C02 words it
+            // alternatives can be settled as C02 words it. When the tie rule leaves both a
+            // fee-free and a fee-bearing rounding open, the contract may land on the latter and
+            // refuse ("fees payable"): acceptance is then not demanded
+            let n0 = fee_alts.len();
             fee_alts.retain(|(bf, _)| *bf == 0);
             if fee_alts.is_empty() {
                 return refuse("bid_fee_unpayable");
+            }
+            if fee_alts.len() < n0 {
+                must_accept = false;
             }
         }
     } else {
@@ -1359,7 +1366,7 @@ fn execute_match(cx: &Ctx, ask_id: &str, bid_id: &str, price: &str, size: u128) 
         }
         alts.push(e);
     }
-    Expect::Accept { alts, must: true }
+    Expect::Accept { alts, must: must_accept }
 }
 
 /// Ok(None) = pair not supplied, Ok(Some(None)) = cleared, Ok(Some(Some(fee))) = installed
